@@ -18,7 +18,7 @@ func init() {
 		Explanation: "(R1) the one-shot tokens of a request (upstreamResponseReceived, downstreamCleaned, downstreamReset, upstreamReset, reuseBuffer, BaseStream.state) are accessed only through sync/atomic (the constructor's pre-publication store is the listed exception); " +
 			"(R2) each terminal producer — the two timeout handlers, the store of the upstream response in upstreamRequest.OnReceive, the hijack in TerminateStream — is reachable only through the success edge of CompareAndSwap(&upstreamResponseReceived,0,1); cleanStream's body, both OnResetStream and BaseStream.DestroyStream's listener loop are behind their own CAS; the only way back to 0 is the CAS(1,0) in setupRetry; " +
 			"(R3) timer callbacks follow the order reuse-off -> cleaned check -> generation check -> CAS -> handler; (R4) the reply has one author: responseSender.Append* is called only from downStream.append*, those only from onUpstream*/the receive-filter handler, those only from upstreamRequest.receive*, which only the UpRecv* cases of the phase machine call; " +
-			"(R5) timers are armed on every end-of-request path and on retry, the global timeout always ends up non-zero, cleanUp stops and clears both timers and runs in cleanStream before the stream is recycled; (R6) every phase that acts re-checks through processError. (R7) the wake-up token of the phase machine: downStream.notify is touched only by sendNotify/cleanNotify/waitNotify, is a one-slot channel, send and clean never block, and every re-entry of receive in OnReceive is preceded in the same iteration by cleanNotify. (R8) processError clears upstreamRequest.setupRetry on the edge that returns the Retry phase, and only downStream.setupRetry raises it. (R2 winner-produces) from the success edge of every CompareAndSwap(upstreamResponseReceived,0,1) no return is reachable that avoids every producer of the outcome, unless the verdict is handed to the caller.",
+			"(R5) timers are armed on every end-of-request path and on retry, the global timeout always ends up non-zero, cleanUp stops and clears both timers and runs in cleanStream before the stream is recycled; (R6) every phase that acts re-checks through processError. (R7) the wake-up token of the phase machine: downStream.notify is touched only by sendNotify/cleanNotify/waitNotify, is a one-slot channel, send and clean never block, and every re-entry of receive in OnReceive is preceded in the same iteration by cleanNotify. (R8) processError clears upstreamRequest.setupRetry on the edge that returns the Retry phase, and only downStream.setupRetry raises it. (R2 winner-produces) from the success edge of every CompareAndSwap(upstreamResponseReceived,0,1) no return is reachable that avoids every producer of the outcome, unless the verdict is handed to the caller. (R5 arms-whenever-sent) in receiveHeaders/Data/Trailers no path on which endStream is true passes the append call and reaches a return without onUpstreamRequestSent, before or after.",
 		Run: runC03,
 	})
 }
@@ -313,6 +313,32 @@ func runC03(c *Ctx) {
 			ok = g
 		}
 		c.Check("C03.R5", funcKey(fn)+":arms-timers", fn.Pos(), ok, "onUpstreamRequestSent (which arms the timers) on the end-of-request path", m+" no longer arms the timeout timers when the request has been fully sent: a silent upstream would hang the request")
+		// only endStream decides: once the last part of the request is handed to the upstream request in this invocation, the
+		// timers are armed in the same invocation - before or after, on every path. A further condition in between (e.g. "the
+		// pool gave no stream") leaves a request whose retry runs without the global deadline.
+		apps := callsIn(fn, false, func(cc *ssa.CallCommon) bool {
+			n := methodName(cc)
+			return n == "appendHeaders" || n == "appendData" || n == "appendTrailers"
+		})
+		if len(cs) == 1 && len(apps) == 1 {
+			arm, app := cs[0].Instr, apps[0].Instr
+			edgeOK := func(from, to *ssa.BasicBlock) bool {
+				if len(fn.Params) < 2 {
+					return true
+				}
+				ifi, isIf := from.Instrs[len(from.Instrs)-1].(*ssa.If)
+				if !isIf || ifi.Cond != ssa.Value(fn.Params[1]) {
+					return true
+				}
+				return from.Succs[0] == to // endStream is true
+			}
+			isArm := func(x ssa.Instruction) bool { return x == arm }
+			before := existsPathEdges(fn, nil, func(x ssa.Instruction) bool { return x == app }, isArm, edgeOK) != nil
+			after := existsPathEdges(fn, app, isReturn, isArm, edgeOK)
+			c.Check("C03.R5", funcKey(fn)+":arms-whenever-sent", fn.Pos(), !(before && after != nil), "whenever the last request part is handed to the upstream request, the timers are armed in the same invocation", m+" can hand the end of the request to the upstream request and return without arming the timers (a condition other than endStream lies between them): if the first try failed inside the pool, the retry runs with no global deadline and a silent upstream hangs the request forever")
+		} else {
+			c.Fail("C03.R5", funcKey(fn)+":arms-whenever-sent", fn.Pos(), fmt.Sprintf("expected one append call and one onUpstreamRequestSent call in %s, found %d/%d", m, len(apps), len(cs)))
+		}
 	}
 	if fn := c.M(pkg, "downStream", "onUpstreamRequestSent"); fn != nil {
 		per := callsIn(fn, false, func(cc *ssa.CallCommon) bool { return methodName(cc) == "setupPerReqTimeout" })
